@@ -288,18 +288,45 @@ def run(model, rep, tier):
     t = src(uq.node)
     # what unique() returns, in terms of its argument (sa.pattern on the resolved return expression): sort, mark first occurrences of the SORTED
     # array, gather through the SAME sorter, inverse from the SAME mask and sorter
-    rets = find_stmts(uq.body, lambda s_: isinstance(s_, ast.Return) and s_.value is not None)
-    m = pmatch('(U_, I_, V_)[SEL_]', deep_resolved(uq.node, rets[-1].value)) if rets else None
-    missing = ['return (unique, index, inverse)[...]'] if m is None else []
-    if m is not None:
-        if pmatch('Take(array, Take(ArgSort(array), Find(UniqueMask(Take(array, ArgSort(array))))))', m['U_']) is None:
-            missing.append('unique = Take(array, Take(sorter, Find(mask)))')
-        if pmatch('Take(ArgSort(array), Find(UniqueMask(Take(array, ArgSort(array)))))', m['I_']) is None:
-            missing.append('index = Take(sorter, Find(mask))')
-        if pmatch('UniqueInverse(UniqueMask(Take(array, ArgSort(array))), ArgSort(array))', m['V_']) is None:
-            missing.append('inverse = UniqueInverse(mask, sorter)')
+    # unique() is INTERPRETED (sa.miniexec) with opaque node constructors for the four flag combinations: the returned terms must be the documented wiring
+    from sa.miniexec import MiniExec, Opaque, Sym, Returned, RaisedIn, AssertionFailed
+
+    class _Arr(Opaque):     # an opaque array that passes `isinstance(array, Array)` and `array.ndim == 1` style preconditions
+        pass
+    SORT = 'ArgSort(array)'
+    MASK = f'UniqueMask(Take(array, {SORT}))'
+    IDX = f'Take({SORT}, Find({MASK}))'
+    WANT = {'unique': f'Take(array, {IDX})', 'index': IDX, 'inverse': f'UniqueInverse({MASK}, {SORT})'}
+    missing, sel_ok = [], True
+    try:
+        for ri, rv in ((False, False), (True, False), (False, True), (True, True)):
+            arr = _Arr('array')
+            ex = MiniExec({'array': arr, 'return_index': ri, 'return_inverse': rv, 'Array': _Arr, 'isinstance': isinstance, 'slice': slice,
+                           **{k: Opaque(k) for k in ('ArgSort', 'UniqueMask', 'Take', 'Find', 'UniqueInverse')}})
+            ex_attr = ex.ev
+
+            def ev_patched(e, env=None, _orig=ex_attr):
+                if isinstance(e, ast.Attribute) and src(e) == 'array.ndim':
+                    return 1
+                return _orig(e, env)
+            ex.ev = ev_patched
+            try:
+                ex.run(uq.node.body)
+                got = None
+            except Returned as r:
+                got = r.value
+            names = ['unique'] + (['index'] if ri else []) + (['inverse'] if rv else [])
+            gl = [repr(x) for x in (got if isinstance(got, (tuple, list)) else [got])]
+            if (ri or rv) != isinstance(got, (tuple, list)) or len(gl) != len(names):
+                sel_ok = False
+                continue
+            for nm, g_ in zip(names, gl):
+                if g_ != WANT[nm] and f'{nm} = {WANT[nm]}' not in missing:
+                    missing.append(f'{nm} = {WANT[nm]}')
+    except (Unsupported, AssertionFailed, RaisedIn, TypeError, ValueError, KeyError, IndexError, AttributeError) as e:
+        raise AnalysisError(f'evaluable.unique uses a construct the interpreter does not know: {type(e).__name__}: {e}')
     rep.ob('R05.3', uq.key, uq.where(), not missing, 'unique() = sort, mark first occurrences, gather, inverse through the same sorter and mask' if not missing else f'unique(): {missing} changed', statement='unique-wiring')
-    ok = m is not None and src(m['SEL_']) == 'slice(0, 2 + return_inverse, 2 - return_index) if return_inverse or return_index else 0'
+    ok = sel_ok
     rep.ob('R05.3', uq.key, uq.where(), ok, 'the result selection returns (unique, inverse) for return_inverse only' if ok else 'the result selection of unique() changed', statement='unique-selection')
     # R05.4
     ac = model.func('evaluable:as_csr')
